@@ -304,6 +304,50 @@ theorem plain_send_unaffected (s : State) (a : Addr) (p : Bytes) (h : s.anonymiz
     step s (.send a p) = (s, [.raw a p]) := by
   simp [step, send_plain s a p h]
 
+/- FULL STATEMENT of "overlays that did not ask for anonymity are unaffected", per overlay (FALSE for this code):
+     a packet sent while no LOADED overlay with its prefix asked for anonymity (and nobody switched the prefix on
+     explicitly) is handed to the raw socket.
+   The per-prefix switch outlives the overlay that set it (`Community.unload` does not revoke it, and cannot simply do
+   so: another anonymized instance may share the prefix), so a plain overlay loaded later under the same community id
+   is tunnelled / queued / dropped.  Known finding `Community.unload:stale-opt-in`; witness and the part that holds: -/
+
+/-- the witness: anonymized overlay loaded and unloaded, then a plain overlay under the same id sends — dropped, not raw -/
+theorem plain_overlay_after_unload_is_affected :
+    ∃ (cid : Bytes) (a : Addr) (body : Bytes), cid.length = 20 ∧
+      ((trace (init 2) [.overlay cid true, .unloadOverlay 1000, .overlay cid false,
+                        .send a (overlayPrefix cid ++ body)]).map (·.2.2)).getLast?
+        = some [.drop false a (overlayPrefix cid ++ body)] :=
+  ⟨List.replicate 20 0xAA, 3, [1], by decide, by decide⟩
+
+/-- **Plain overlays are unaffected as long as nobody ever opted that prefix in.**  From a fresh endpoint, through any
+    history in which no overlay with this prefix is loaded with `anonymize` and nobody calls `set_anonymity(prefix,
+    True)`, every packet with that prefix is sent raw, unchanged, whatever else happens (other overlays opting in,
+    tunnel communities, circuits, unloads). -/
+theorem plain_overlays_unaffected_partial (cap : Nat) (pfx : Bytes) (ops : List Op)
+    (hno : ∀ o ∈ ops, o ≠ .setAnonymity pfx true ∧ ∀ cid, o = .overlay cid true → overlayPrefix cid ≠ pfx)
+    (a : Addr) (p : Bytes) (hp : p.take prefixLen = pfx) :
+    step (runState (init cap) ops) (.send a p) = (runState (init cap) ops, [.raw a p]) := by
+  have key : ∀ (ops : List Op) (s : State), dictGet s.settings pfx ≠ some true →
+      (∀ o ∈ ops, o ≠ .setAnonymity pfx true ∧ ∀ cid, o = .overlay cid true → overlayPrefix cid ≠ pfx) →
+      dictGet (runState s ops).settings pfx ≠ some true := by
+    intro ops
+    induction ops with
+    | nil => intro s h _; exact h
+    | cons o os ih =>
+      intro s h hn
+      apply ih
+      · rw [step_settings]
+        exact dictGet_settingsStep_plain _ _ _ h (hn o (by simp)).1 (hn o (by simp)).2
+      · intro o' ho'; exact hn o' (by simp [ho'])
+  have h := key ops (init cap) (by simp [init, dictGet]) hno
+  apply plain_send_unaffected
+  simp only [State.anonymized, hp]
+  cases hg : dictGet (runState (init cap) ops).settings pfx with
+  | none => rfl
+  | some b => cases b
+              · rfl
+              · exact absurd hg h
+
 /-- **Plain overlays are unaffected (whole histories).**  The sequence of packets handed to the raw socket during any
     history is a function of the `set_anonymity` / opt-in ops and the sends alone (`plainSends` never looks at
     circuits, the tunnel community, the queue or listeners): exactly the sends whose prefix was not anonymized when
@@ -400,9 +444,10 @@ theorem shared_prefix_stays_anonymized (s : State) (cid : Bytes) (hlen : cid.len
 
 /-- **The service hands every overlay the TunnelEndpoint itself.**  Whatever `enable_statistics` is, when some configured
     overlay asks for anonymity the outermost decorator `IPv8.__init__` builds (generated `serviceWrappers`) is the
-    TunnelEndpoint — which is what `Community.__init__`'s `isinstance(self.endpoint, TunnelEndpoint)` needs. -/
+    TunnelEndpoint — which is what `Community.__init__`'s `isinstance(self.endpoint, TunnelEndpoint)` guard (translated as
+    `optInNeedsTunnelEndpoint`, read by `serviceOps`) needs. -/
 theorem service_hands_overlays_the_tunnel_endpoint (stats : Bool) :
-    (serviceWrappers stats true).getLast? = some .tunnel ∧ optInNeedsTunnelEndpoint = true := by
+    (serviceWrappers stats true).getLast? = some .tunnel := by
   cases stats <;> decide
 
 /-- **The opt-in silently fails behind a decorator.**  (Why the order above matters.)  An overlay constructed with
@@ -426,7 +471,7 @@ theorem service_anonymized_overlay_never_raw (cap : Nat) (stats : Bool) (ovs : L
     simp [overlayPrefix, communityPrefixHead, prefixLen, hlen]
   have hany : ovs.any (·.2) = true := List.any_eq_true.2 ⟨(cid, true), hin, rfl⟩
   have htop : (serviceWrappers stats (ovs.any (·.2))).getLast? = some .tunnel := by
-    rw [hany]; exact (service_hands_overlays_the_tunnel_endpoint stats).1
+    rw [hany]; exact service_hands_overlays_the_tunnel_endpoint stats
   have hops : serviceOps stats ovs = ovs.map (fun o => Op.overlay o.1 o.2) := by
     simp [serviceOps, htop]
   obtain ⟨l1, l2, rfl⟩ := List.append_of_mem hin
